@@ -1,8 +1,973 @@
 import Sigc.Basic
-/-! component model `Adapt` — see DESIGN.md §3.2 (stub, replaced by the real model) -/
+/-!
+  Component model `Adapt` (DESIGN.md §3.2, §5 C10/C11): the call operators of the adaptors of
+  `sigc++/adaptors/*.h`, the tuple slicing of `sigc++/tuple-utils/*.h`, the slot / emit call route
+  (`functors/slot.h`, `signal.h`) — executable, total, core Lean only.  No proofs in this file.
+
+  Part 1  tuple utilities (generic)                      tuple_start / tuple_cdr / tuple_end / tuple_transform_each
+  Part 2  slot call and emit loops (generic)             slot::operator(), signal_emit<R,void>::emit, signal_emit<void,void>::emit
+  Part 3  C10: values, `callImpl` (follows the code) and `callSpec` (the documentation)
+  Part 4  C11: objects with identity, parameter-kind table, `callO`
+  Part 5  driver: `processLine`
+-/
 namespace Sigc.Adapt
 
-/-- one driver case per input line → one output line -/
-def processLine (line : String) : String := "unimplemented " ++ line
+/-! ## Part 1 — tuple utilities -/
+
+/-- `std::get<I>(t)...` for an index pack -/
+def gets (idx : List Nat) (l : List α) : List α := idx.filterMap (fun i => l[i]?)
+
+/-- `tuple_start<len>(t)`: `start(std::get<I>(t)...)` over `std::make_index_sequence<len>` -/
+def tupleStart (len : Nat) (l : List α) : List α := gets (List.range len) l
+
+/-- `tuple_cdr(t)`: `cdr(std::get<I>(t)...)` where the pack is `index_sequence<0, I...>` without the 0 -/
+def tupleCdr (l : List α) : List α := gets (List.range l.length).tail l
+
+/-- `tuple_end<len>(t)`, the recursion of tuple_end.h; the fuel is the tuple size (one `tuple_cdr` per level) -/
+def tupleEndFuel : Nat → Nat → List α → List α
+  | 0, len, l => if len = 0 then [] else l
+  | fuel + 1, len, l =>
+    if len = 0 then []                                   -- `if constexpr (len == 0)`
+    else if l.length - len = 0 then l                    -- `size - len == 0`
+    else if l.length - len = 1 then tupleCdr l           -- `size - len == 1`
+    else tupleEndFuel fuel len (tupleCdr l)              -- `tuple_end<len>(tuple_cdr(t))`
+
+def tupleEnd (len : Nat) (l : List α) : List α := tupleEndFuel l.length len l
+
+/-- `tuple_transform_each_impl<T, size_from_index>::tuple_transform_each(t, t_original)`.
+    Not yet transformed elements are `inl`, transformed ones `inr`. -/
+def transformEachImpl (f : α → β) : Nat → List (Sum α β) → List α → List (Sum α β)
+  | 0, t, _ => t
+  | sfi + 1, t, orig =>
+    let size := t.length
+    let index := size - (sfi + 1)
+    match orig[index]? with
+    | none => t
+    | some e =>
+      let tElement : List (Sum α β) := [Sum.inr (f e)]
+      if sfi = 0 then
+        tupleStart (size - 1) t ++ tElement
+      else
+        let tStart := tupleStart index t
+        let tEnd := tupleEnd (size - index - 1) t
+        transformEachImpl f sfi (tStart ++ tElement ++ tEnd) orig
+
+def transformEach (f : α → β) (orig : List α) : List (Sum α β) :=
+  transformEachImpl f orig.length (orig.map Sum.inl) orig
+
+/-- the elements of a completely transformed tuple -/
+def invoked (l : List (Sum α β)) : List β :=
+  l.filterMap (fun x => match x with | .inr b => some b | .inl _ => none)
+
+/-- `tuple_transform_each<TransformEachInvoker>(bound_)` -/
+def invokeEach (f : α → β) (bound : List α) : List β := invoked (transformEach f bound)
+
+/-! ## Part 2 — slot call and emit loops (generic in the slot type, the state and the result) -/
+
+inductive Res (ρ : Type) where
+  | ok (r : ρ)
+  | threw
+  deriving DecidableEq, Repr
+
+def Res.map (g : ρ → τ) : Res ρ → Res τ
+  | .ok r => .ok (g r)
+  | .threw => .threw
+
+/-- the `for (++it; it != end; ++it) { if (empty||blocked) continue; r_ = call(...); }` loop -/
+def emitLoop (callable : σ → Bool) (call : σ → S → S × Res ρ) : List σ → S → ρ → S × Res ρ
+  | [], s, r => (s, .ok r)
+  | sl :: rest, s, r =>
+    if callable sl then
+      match call sl s with
+      | (s', .ok r') => emitLoop callable call rest s' r'
+      | (s', .threw) => (s', .threw)
+    else emitLoop callable call rest s r
+
+/-- `signal_emit<T_return, void, T_arg...>::emit` -/
+def emitValue (callable : σ → Bool) (call : σ → S → S × Res ρ) (dflt : ρ) (slots : List σ) (s : S) :
+    S × Res ρ :=
+  if slots.isEmpty then (s, .ok dflt)
+  else
+    match slots.dropWhile (fun sl => !callable sl) with
+    | [] => (s, .ok dflt)
+    | first :: rest =>
+      match call first s with
+      | (s', .ok r) => emitLoop callable call rest s' r
+      | (s', .threw) => (s', .threw)
+
+/-- `signal_emit<void, void, T_arg...>::emit` -/
+def emitVoid (callable : σ → Bool) (call : σ → S → S × Res ρ) : List σ → S → S × Res Unit
+  | [], s => (s, .ok ())
+  | sl :: rest, s =>
+    if callable sl then
+      match call sl s with
+      | (s', .ok _) => emitVoid callable call rest s'
+      | (s', .threw) => (s', .threw)
+    else emitVoid callable call rest s
+
+/-! ## Part 3 — C10: values -/
+
+inductive Ty where
+  | int | long | dbl
+  deriving DecidableEq, Repr
+
+/-- a `double` is represented by its number of tenths -/
+inductive Val where
+  | unit
+  | num (t : Ty) (n : Int)
+  deriving DecidableEq, Repr
+
+/-- `static_cast<t>(v)` / implicit conversion to `t` (double → integer truncates toward zero) -/
+def conv (t : Ty) : Val → Val
+  | .unit => .unit
+  | .num s n =>
+    match s, t with
+    | .dbl, .dbl => .num .dbl n
+    | .dbl, _ => .num t (Int.tdiv n 10)
+    | _, .dbl => .num .dbl (n * 10)
+    | _, _ => .num t n
+
+def retConv : Option Ty → Val → Val
+  | none, _ => .unit
+  | some t, v => conv t v
+
+/-- `T_return()` -/
+def dflt : Option Ty → Val
+  | none => .unit
+  | some t => .num t 0
+
+/-- `(long)arg` inside the recording target -/
+def truncVal : Val → Int
+  | .unit => 0
+  | .num .dbl n => Int.tdiv n 10
+  | .num _ n => n
+
+def weightedSum : Nat → List Val → Int
+  | _, [] => 0
+  | i, v :: vs => (i : Int) * truncVal v + weightedSum (i + 1) vs
+
+/-- result of recording target `id`: `id*100 + Σ (i+1)*(long)arg_i`, `+0.5` when it returns double -/
+def leafRet (id : Nat) (ret : Option Ty) (recv : List Val) : Val :=
+  let s : Int := (id : Int) * 100 + weightedSum 1 recv
+  match ret with
+  | none => .unit
+  | some .dbl => .num .dbl (s * 10 + 5)
+  | some t => .num t s
+
+structure Call where
+  id : Nat
+  args : List Val
+  deriving DecidableEq, Repr
+
+structure Outcome where
+  log : List Call
+  res : Res Val
+  deriving DecidableEq, Repr
+
+/-- run `k` on the result unless an exception is in flight -/
+def Outcome.andThen (o : Outcome) (k : Val → Outcome) : Outcome :=
+  match o.res with
+  | .ok v => let o' := k v; ⟨o.log ++ o'.log, o'.res⟩
+  | .threw => o
+
+def Outcome.mapRes (o : Outcome) (g : Val → Val) : Outcome := ⟨o.log, o.res.map g⟩
+
+/-- adaptors with one wrapped functor whose call operator transforms arguments and/or the result -/
+inductive Node where
+  | bind (loc : Option Nat) (bs : List Val)      -- bind<I>(f, b...) / bind(f, b...) (`none` = -1)
+  | hide (loc : Option Nat)                      -- hide<I>(f) / hide(f)
+  | retype (tys : List Ty)                       -- retype(f): `T_type...` taken from f's type
+  | retypeReturn (r : Ty)
+  | hideReturn                                   -- retype_return<void>
+  | bindReturn (v : Val)
+  | trackObj (n : Nat)
+  | slot (ret : Option Ty) (sig : List Ty)       -- a sigc::slot<ret(sig...)> stored by value
+  deriving DecidableEq, Repr
+
+inductive FExpr where
+  | leaf (id : Nat) (params : List Ty) (ret : Option Ty) (throws : Bool)
+  | vleaf (id : Nat) (ret : Option Ty) (throws : Bool)      -- target with a variadic template operator()
+  | un (n : Node) (f : FExpr)
+  | compose1 (s g : FExpr)
+  | compose2 (s g1 g2 : FExpr)
+  | exceptionCatch (f c : FExpr)
+  deriving DecidableEq, Repr
+
+/-- the declared parameter types `retype()` deduces from the functor type (pointer_functor / slot) -/
+def sigOf : FExpr → Option (List Ty)
+  | .leaf _ ps _ _ => some ps
+  | .un (.slot _ sig) _ => some sig
+  | _ => none
+
+/-- arguments handed to the wrapped functor — follows each call operator literally -/
+def argsImpl : Node → List Val → List Val
+  | .bind (some i) bs, args =>
+    let tStart := tupleStart i args
+    let tBound := invokeEach id bs
+    let tEnd := tupleEnd (args.length - i) args
+    tStart ++ tBound ++ tEnd
+  | .bind none bs, args => args ++ invokeEach id bs
+  | .hide loc, args =>
+    let size := args.length
+    let indexIgnore := match loc with | none => size - 1 | some i => i
+    tupleStart indexIgnore args ++ tupleEnd (size - indexIgnore - 1) args
+  | .retype tys, args => List.zipWith conv tys args          -- `static_cast<T_type>(a)...`
+  | .slot _ sig, args => List.zipWith conv sig args          -- conversion to `take_t<T_arg>` at the call
+  | _, args => args
+
+/-- arguments handed to the wrapped functor — as documented -/
+def argsSpec : Node → List Val → List Val
+  | .bind (some i) bs, args => args.take i ++ bs ++ args.drop i    -- inserted at position I
+  | .bind none bs, args => args ++ bs                               -- appended
+  | .hide (some i), args => args.eraseIdx i                         -- without argument I
+  | .hide none, args => args.dropLast                               -- without the last
+  | .retype tys, args => List.zipWith conv tys args                 -- converted to f's parameter types
+  | .slot _ sig, args => List.zipWith conv sig args
+  | _, args => args
+
+/-- what the adaptor does with the wrapped functor's result -/
+def resOf : Node → Val → Val
+  | .retypeReturn r, v => conv r v
+  | .hideReturn, _ => .unit
+  | .bindReturn b, _ => b
+  | .slot ret _, v => retConv ret v
+  | _, v => v
+
+def callImpl : FExpr → List Val → Outcome
+  | .leaf id ps ret thr, args =>
+    let recv := List.zipWith conv ps args
+    ⟨[⟨id, recv⟩], if thr then .threw else .ok (leafRet id ret recv)⟩
+  | .vleaf id ret thr, args => ⟨[⟨id, args⟩], if thr then .threw else .ok (leafRet id ret args)⟩
+  | .un n f, args => (callImpl f (argsImpl n args)).mapRes (resOf n)
+  | .compose1 s g, args => (callImpl g args).andThen (fun v => callImpl s [v])
+  | .compose2 s g1 g2, args =>
+    (callImpl g1 args).andThen (fun v1 => (callImpl g2 args).andThen (fun v2 => callImpl s [v1, v2]))
+  | .exceptionCatch f c, args =>
+    let o := callImpl f args
+    match o.res with
+    | .ok _ => o
+    | .threw => let oc := callImpl c []; ⟨o.log ++ oc.log, oc.res⟩
+
+def callSpec : FExpr → List Val → Outcome
+  | .leaf id ps ret thr, args =>
+    let recv := List.zipWith conv ps args
+    ⟨[⟨id, recv⟩], if thr then .threw else .ok (leafRet id ret recv)⟩
+  | .vleaf id ret thr, args => ⟨[⟨id, args⟩], if thr then .threw else .ok (leafRet id ret args)⟩
+  | .un n f, args => (callSpec f (argsSpec n args)).mapRes (resOf n)
+  | .compose1 s g, args => (callSpec g args).andThen (fun v => callSpec s [v])
+  | .compose2 s g1 g2, args =>
+    (callSpec g1 args).andThen (fun v1 => (callSpec g2 args).andThen (fun v2 => callSpec s [v1, v2]))
+  | .exceptionCatch f c, args =>
+    let o := callSpec f args
+    match o.res with
+    | .ok _ => o
+    | .threw => let oc := callSpec c []; ⟨o.log ++ oc.log, oc.res⟩
+
+/-- arity discipline (what the `static_assert`s and overload resolution enforce) -/
+def nodeArity : Node → Nat → Option Nat
+  | .bind (some i) bs, n => if i ≤ n then some (n + bs.length) else none
+  | .bind none bs, n => some (n + bs.length)
+  | .hide (some i), n => if i < n then some (n - 1) else none
+  | .hide none, n => if 0 < n then some (n - 1) else none
+  | .retype tys, n => if tys.length = n then some n else none
+  | .slot _ sig, n => if sig.length = n then some n else none
+  | _, n => some n
+
+def wellTyped : FExpr → Nat → Bool
+  | .leaf _ ps _ _, n => ps.length == n
+  | .vleaf _ _ _, _ => true
+  | .un nd f, n =>
+    (match nodeArity nd n with
+     | some m => wellTyped f m
+     | none => false)
+    && (match nd with
+        | .retype tys => sigOf f == some tys
+        | _ => true)
+  | .compose1 s g, n => wellTyped g n && wellTyped s 1
+  | .compose2 s g1 g2, n => wellTyped g1 n && wellTyped g2 n && wellTyped s 2
+  | .exceptionCatch f c, n => wellTyped f n && wellTyped c 0
+
+/-- the three invocation routes -/
+structure SlotM where
+  empty : Bool
+  blocked : Bool
+  ret : Option Ty
+  f : FExpr
+  deriving Repr
+
+def SlotM.callable (s : SlotM) : Bool := !s.empty && !s.blocked
+
+/-- `slot_call::call_it`: passes the `take_t` arguments through unchanged, converts the result to `T_return` -/
+def callIt (s : SlotM) (args : List Val) : Outcome := (callImpl s.f args).mapRes (retConv s.ret)
+
+/-- `slot::operator()` -/
+def SlotM.call (s : SlotM) (args : List Val) : Outcome :=
+  if s.callable then callIt s args else ⟨[], .ok (dflt s.ret)⟩
+
+def direct (e : FExpr) (args : List Val) : Outcome := callImpl e args
+
+def sigCall (args : List Val) (s : SlotM) (log : List Call) : List Call × Res Val :=
+  let o := callIt s args
+  (log ++ o.log, o.res)
+
+/-- `signal<ret(sig...)>::emit(args)` -/
+def viaSignal (ret : Option Ty) (slots : List SlotM) (args : List Val) : Outcome :=
+  match ret with
+  | none =>
+    let (log, r) := emitVoid SlotM.callable (sigCall args) slots []
+    ⟨log, r.map (fun _ => Val.unit)⟩
+  | some t =>
+    let (log, r) := emitValue SlotM.callable (sigCall args) (dflt (some t)) slots []
+    ⟨log, r⟩
+
+/-! ## Part 4 — C11: objects with identity -/
+
+/-- declared parameter kind of a signal / slot signature position or of a target parameter:
+    `T`, `T&`, `const T&`, `T&&` -/
+inductive PK where
+  | val | lref | cref | rref
+  deriving DecidableEq, Repr
+
+/-- what an argument expression is when it reaches a call operator: non-const lvalue, const lvalue,
+    rvalue whose `T_arg` is deduced as `X`, rvalue passed with the explicit template argument `X&&` -/
+inductive Cat where
+  | lv | clv | xvD | xvE
+  deriving DecidableEq, Repr
+
+def Cat.stable : Cat → Bool
+  | .lv => true
+  | .clv => true
+  | _ => false
+
+/-- `T_arg` deduced by a forwarding reference from `std::forward<X&&>(a)`: plain `X` -/
+def Cat.deduced : Cat → Cat
+  | .xvE => .xvD
+  | c => c
+
+/-- a named parameter passed on as `a...` is an lvalue -/
+def Cat.named : Cat → Cat
+  | .clv => .clv
+  | _ => .lv
+
+/-- an argument: the object it denotes, its category, and (ghost) the caller's object that the documented
+    semantics says it denotes (`none` for a value produced by a documented conversion) -/
+structure ARef where
+  obj : Nat
+  cat : Cat
+  origin : Option Nat
+  deriving DecidableEq, Repr
+
+/-- what a `bound_argument<>` holds: its own copy (`T`), or a `limit_reference` to the user's object
+    (`std::reference_wrapper<T>` / `<const T>`) -/
+inductive Bound where
+  | byVal (stored : Nat)
+  | byRef (o : Nat)
+  | byCRef (o : Nat)
+  deriving DecidableEq, Repr
+
+/-- `bound_argument<>::invoke()` -/
+def Bound.invoke : Bound → ARef
+  | .byVal s => ⟨s, .lv, some s⟩
+  | .byRef o => ⟨o, .lv, some o⟩
+  | .byCRef o => ⟨o, .clv, some o⟩
+
+/-- one target parameter as observed: designated object, object it was fed from, value seen -/
+structure Param where
+  origin : Option Nat
+  src : Nat
+  seen : Int
+  deriving DecidableEq, Repr
+
+structure Rec where
+  id : Nat
+  params : List Param
+  deriving DecidableEq, Repr
+
+structure Heap where
+  next : Nat
+  val : Nat → Int
+  copies : Nat → Nat        -- copy constructions with this source
+  moves : Nat → Nat         -- move constructions with this source
+  hops : Nat → Nat          -- of those, the ones made inside library call operators
+  log : List Rec
+
+/-- value of a moved-from object (the harness' `Obj` move constructor does this) -/
+def movedMark : Int := -1
+
+def Heap.set (h : Heap) (o : Nat) (v : Int) : Heap :=
+  { h with val := fun x => if x = o then v else h.val x }
+
+/-- construct a new `Obj` (its identity is `h.next`) from the expression `a`: copy, or move when `a` is an rvalue
+    (unless `forceCopy`) -/
+def Heap.construct (h : Heap) (hop : Bool) (forceCopy : Bool) (a : ARef) : Heap :=
+  let o := h.next
+  let isMove := !a.cat.stable && !forceCopy
+  { next := o + 1,
+    val := fun x => if x = o then h.val a.obj else if isMove && x = a.obj then movedMark else h.val x,
+    copies := fun x => if !isMove && x = a.obj then h.copies x + 1 else h.copies x,
+    moves := fun x => if isMove && x = a.obj then h.moves x + 1 else h.moves x,
+    hops := fun x => if hop && x = a.obj then h.hops x + 1 else h.hops x,
+    log := h.log }
+
+/-- thread the heap through a per-element step -/
+def thread (step : Heap → α → Heap × β) : Heap → List α → Heap × List β
+  | h, [] => (h, [])
+  | h, a :: as =>
+    let r := step h a
+    let rs := thread step r.1 as
+    (rs.1, r.2 :: rs.2)
+
+inductive AdaptorKind where
+  | adaptorFunctor | bind | hide | retype | retypeReturn | retypeReturnVoid | bindReturn
+  | compose1 | compose2 | exceptionCatch | trackObj
+  deriving DecidableEq, Repr
+
+inductive ParamKind where
+  | byValue          -- `operator()(T_arg... a)`
+  | forwardingRef    -- `operator()(T_arg&&... a)`
+  deriving DecidableEq, Repr
+
+/-- the declared parameter kind of every adaptor call operator **in the current code**
+    (checked against the code by the correspondence, not assumed) -/
+def paramKind : AdaptorKind → ParamKind
+  | .adaptorFunctor => .forwardingRef      -- adaptor_trait.h  adaptor_functor::operator()(T_arg&&... arg)
+  | .bind => .forwardingRef                -- bind.h           bind_functor::operator()(T_arg&&... arg)
+  | .hide => .forwardingRef                -- hide.h           hide_functor::operator()(T_arg&&... a)
+  | .retype => .forwardingRef              -- retype.h         (repaired)
+  | .retypeReturn => .forwardingRef        -- retype_return.h  primary template
+  | .retypeReturnVoid => .forwardingRef    -- retype_return.h  <void> specialisation (repaired)
+  | .bindReturn => .forwardingRef          -- bind_return.h    (repaired)
+  | .compose1 => .forwardingRef            -- compose.h        compose1_functor
+  | .compose2 => .forwardingRef            -- compose.h        compose2_functor (repaired)
+  | .exceptionCatch => .forwardingRef      -- exception_catch.h (repaired)
+  | .trackObj => .forwardingRef            -- track_obj.h
+
+/-- binding of one argument to a parameter of a call operator template.
+    `explicit`: the template arguments are given explicitly as `take_t<T_arg>...` (slot_call::call_it), so even a
+    by-value pack has reference type; otherwise `T_arg` is deduced. -/
+def enterArg (pk : ParamKind) (explicit : Bool) (h : Heap) (a : ARef) : Heap × ARef :=
+  match pk with
+  | .forwardingRef => (h, if explicit then a else { a with cat := a.cat.deduced })
+  | .byValue =>
+    if explicit then (h, a)
+    else (h.construct true false a, { obj := h.next, cat := .xvD, origin := a.origin })
+
+/-- element of `std::tuple<T_arg...>(std::forward<T_arg>(a)...)` as read back from the `const` tuple by
+    `std::apply`: reference elements denote the same object; a by-value element (`T_arg` deduced as `X`) is
+    move-constructed (the further copies of that copy by the slicing are not distinguished) -/
+def tupleElem (h : Heap) (a : ARef) : Heap × ARef :=
+  match a.cat with
+  | .xvD => (h.construct true false a, { obj := h.next, cat := .clv, origin := a.origin })
+  | .xvE => (h, { a with cat := .lv })
+  | _ => (h, a)
+
+/-- binding to a parameter declared `take_t<T>` (slot::operator(), signal::emit, pointer_functor::operator()) -/
+def takeParam (k : PK) (a : ARef) : ARef :=
+  match k with
+  | .val => { a with cat := .clv }
+  | .cref => { a with cat := .clv }
+  | .lref => a
+  | .rref => if a.cat = .clv then a else { a with cat := .xvE }
+
+/-- `static_cast<T_type>(std::forward<T_arg>(a))` of retype_functor -/
+def castTo (h : Heap) (ka : PK × ARef) : Heap × ARef :=
+  match ka.1 with
+  | .val => (h.construct false false ka.2, { obj := h.next, cat := .xvD, origin := none })
+  | .cref => (h, { ka.2 with cat := .clv })
+  | .lref => (h, { ka.2 with cat := if ka.2.cat = .clv then .clv else .lv })
+  | .rref => (h, if ka.2.cat = .clv then ka.2 else { ka.2 with cat := .xvD })
+
+inductive ONode where
+  | bind (loc : Option Nat) (bs : List Bound)
+  | hide (loc : Option Nat)
+  | retype (tys : List PK)
+  | retypeReturn
+  | hideReturn
+  | bindReturn (v : Int)
+  | exceptionCatch
+  | trackObj
+  | compose1 (sid : Nat)            -- compose(setter, f): the arguments go to the getter `f`
+  | slot (sig : List PK)            -- a sigc::slot stored by value
+  deriving DecidableEq, Repr
+
+inductive OExpr where
+  | leaf (id : Nat) (ptr : Bool) (ps : List PK) (retv : Bool)
+  | un (n : ONode) (f : OExpr)
+  | compose2 (sid : Nat) (g1 g2 : OExpr)
+  deriving DecidableEq, Repr
+
+def ONode.kind : ONode → AdaptorKind
+  | .bind _ _ => .bind
+  | .hide _ => .hide
+  | .retype _ => .retype
+  | .retypeReturn => .retypeReturn
+  | .hideReturn => .retypeReturnVoid
+  | .bindReturn _ => .bindReturn
+  | .exceptionCatch => .exceptionCatch
+  | .trackObj => .trackObj
+  | .compose1 _ => .compose1
+  | .slot _ => .adaptorFunctor
+
+/-- is the wrapped functor's call operator invoked with explicit template arguments -/
+def ONode.innerExplicit : ONode → Bool
+  | .slot _ => true
+  | _ => false
+
+/-- arguments handed to the wrapped functor -/
+def ONode.args (pk : AdaptorKind → ParamKind) (n : ONode) (explicit : Bool) (h : Heap) (args : List ARef) :
+    Heap × List ARef :=
+  match n with
+  | .slot sig => (h, List.zipWith takeParam sig args)
+  | .bind (some i) bs =>
+    let r1 := thread (enterArg (pk .bind) explicit) h args
+    let r2 := thread tupleElem r1.1 r1.2
+    let t := r2.2
+    (r2.1, tupleStart i t ++ invokeEach Bound.invoke bs ++ tupleEnd (t.length - i) t)
+  | .bind none bs =>
+    let r1 := thread (enterArg (pk .bind) explicit) h args
+    let r2 := thread tupleElem r1.1 r1.2
+    (r2.1, r2.2 ++ invokeEach Bound.invoke bs)
+  | .hide loc =>
+    let r1 := thread (enterArg (pk .hide) explicit) h args
+    let r2 := thread tupleElem r1.1 r1.2
+    let t := r2.2
+    let size := t.length
+    let indexIgnore := match loc with | none => size - 1 | some i => i
+    (r2.1, tupleStart indexIgnore t ++ tupleEnd (size - indexIgnore - 1) t)
+  | .retype tys =>
+    let r1 := thread (enterArg (pk .retype) explicit) h args
+    thread castTo r1.1 (List.zip tys r1.2)
+  | n => thread (enterArg (pk n.kind) explicit) h args
+
+def setRes1 (sid : Nat) (r : Option Int) : Int := r.getD 0 + (sid : Int) + 1
+def setRes2 (sid : Nat) (r1 r2 : Option Int) : Int := r1.getD 0 + 2 * r2.getD 0 + (sid : Int) + 1
+
+def ONode.res : ONode → Option Int → Option Int
+  | .hideReturn, _ => none
+  | .bindReturn v, _ => some v
+  | .compose1 sid, r => some (setRes1 sid r)
+  | _, r => r
+
+/-- a target parameter after initialisation: the object the body sees, whether the body may write it,
+    and what is reported about it -/
+structure LParam where
+  recv : Nat
+  writable : Bool
+  origin : Option Nat
+  src : Nat
+
+/-- initialisation of one declared target parameter (`ptr`: the target is a function reached through
+    pointer_functor, whose own `const T&` parameter turns an rvalue into a copy; a function pointer given to
+    compose() as a getter is stored and called as it is, i.e. `ptr = false`) -/
+def leafInit (ptr : Bool) (h : Heap) (ka : PK × ARef) : Heap × LParam :=
+  match ka.1 with
+  | .val => (h.construct false ptr ka.2, ⟨h.next, true, ka.2.origin, ka.2.obj⟩)
+  | .cref => (h, ⟨ka.2.obj, false, ka.2.origin, ka.2.obj⟩)
+  | _ => (h, ⟨ka.2.obj, ka.2.cat != .clv, ka.2.origin, ka.2.obj⟩)
+
+def mutate (id pos : Nat) (v : Int) : Int := v + 100 * ((id : Int) + 1) + (pos : Int)
+
+/-- the body of recording target `id`: per parameter, report the value seen, then write through
+    everything that is not const -/
+def leafBody (id : Nat) : Nat → List LParam → Heap → Heap × List Param
+  | _, [], h => (h, [])
+  | pos, p :: ps, h =>
+    let seen := h.val p.recv
+    let h1 := if p.writable then h.set p.recv (mutate id pos seen) else h
+    let r := leafBody id (pos + 1) ps h1
+    (r.1, ⟨p.origin, p.src, seen⟩ :: r.2)
+
+def sumSeen : List Param → Int
+  | [] => 0
+  | p :: ps => p.seen + sumSeen ps
+
+def leafRun (id : Nat) (ptr : Bool) (ps : List PK) (retv : Bool) (args : List ARef) (h : Heap) :
+    Heap × Res (Option Int) :=
+  let r1 := thread (leafInit ptr) h (List.zip ps args)
+  let r2 := leafBody id 0 r1.2 r1.1
+  ({ r2.1 with log := r2.1.log ++ [⟨id, r2.2⟩] },
+   .ok (if retv then some (1000 * ((id : Int) + 1) + sumSeen r2.2) else none))
+
+/-- invocation of a functor expression with object arguments, following every call operator's declared
+    parameter kind (`pk`) and way of passing on -/
+def callO (pk : AdaptorKind → ParamKind) : OExpr → Bool → List ARef → Heap → Heap × Res (Option Int)
+  | .leaf id ptr ps retv, ex, args, h =>
+    let r1 := thread (enterArg (pk .adaptorFunctor) ex) h args
+    leafRun id ptr ps retv r1.2 r1.1
+  | .un n f, ex, args, h =>
+    let r1 := n.args pk ex h args
+    let r2 := callO pk f n.innerExplicit r1.2 r1.1
+    (r2.1, r2.2.map n.res)
+  | .compose2 sid g1 g2, ex, args, h =>
+    let r1 := thread (enterArg (pk .compose2) ex) h args
+    let as2 := r1.2.map (fun a => { a with cat := a.cat.named })
+    let o1 := callO pk g1 false as2 r1.1
+    match o1.2 with
+    | .threw => (o1.1, .threw)
+    | .ok v1 =>
+      let o2 := callO pk g2 false as2 o1.1
+      (o2.1, o2.2.map (fun v2 => some (setRes2 sid v1 v2)))
+
+structure OSlot where
+  empty : Bool
+  blocked : Bool
+  f : OExpr
+  deriving Repr
+
+def OSlot.callable (s : OSlot) : Bool := !s.empty && !s.blocked
+
+/-- what the emitter passes: its own object `o` (as `std::move(o)` for a `T&&` position), bound to `take_t` -/
+def emitterArg (k : PK) (o : Nat) : ARef := takeParam k ⟨o, .lv, some o⟩
+
+/-- `signal<void(sig...)>::emit`: every slot gets `std::forward<take_t<T_arg>>(a)...` -/
+def emitVoidO (pk : AdaptorKind → ParamKind) (sig : List PK) (objs : List Nat) (slots : List OSlot) (h : Heap) :
+    Heap × Res Unit :=
+  let args := List.zipWith emitterArg sig objs
+  emitVoid OSlot.callable (fun s h => callO pk s.f true args h) slots h
+
+/-- `signal<int(sig...)>::emit`: every slot gets `a...` -/
+def emitValueO (pk : AdaptorKind → ParamKind) (sig : List PK) (objs : List Nat) (slots : List OSlot) (h : Heap) :
+    Heap × Res (Option Int) :=
+  let args := (List.zipWith emitterArg sig objs).map (fun a => { a with cat := a.cat.named })
+  emitValue OSlot.callable (fun s h => callO pk s.f true args h) (some 0) slots h
+
+end Sigc.Adapt
+
+/-! ## Part 4b — predicates used by the C11 theorems (no proofs here) -/
+namespace Sigc.Adapt
+
+/-- the object feeding a target parameter is the object the documented routing designates -/
+def Param.ok (p : Param) : Bool :=
+  match p.origin with
+  | none => true
+  | some o => p.src == o
+
+def Rec.ok (r : Rec) : Bool := r.params.all Param.ok
+
+/-- every target invocation so far received, at every parameter, the very object designated for it -/
+def logOK (h : Heap) : Bool := h.log.all Rec.ok
+
+/-- no `T&&` in a retype target type or in the signature of a nested slot -/
+def ONode.noRRef : ONode → Bool
+  | .retype tys => !tys.contains .rref
+  | .slot sig => !sig.contains .rref
+  | _ => true
+
+def OExpr.noRRef : OExpr → Bool
+  | .leaf _ _ _ _ => true
+  | .un n f => n.noRRef && f.noRRef
+  | .compose2 _ g1 g2 => g1.noRRef && g2.noRRef
+
+/-- only call operators that pass their arguments on with `std::forward` / as `a...` (no tuple slicing, no cast) -/
+def ONode.fwd : ONode → Bool
+  | .retypeReturn => true
+  | .hideReturn => true
+  | .bindReturn _ => true
+  | .exceptionCatch => true
+  | .trackObj => true
+  | .compose1 _ => true
+  | _ => false
+
+def OExpr.fwdOnly : OExpr → Bool
+  | .leaf _ _ _ _ => true
+  | .un n f => n.fwd && f.fwdOnly
+  | .compose2 _ g1 g2 => g1.fwdOnly && g2.fwdOnly
+
+/-- objects a functor expression holds a non-const path to: by-value bound copies and std::ref-bound objects -/
+def Bound.mutObj : Bound → List Nat
+  | .byVal s => [s]
+  | .byRef o => [o]
+  | .byCRef _ => []
+
+def OExpr.boundMut : OExpr → List Nat
+  | .leaf _ _ _ _ => []
+  | .un (.bind _ bs) f => bs.flatMap Bound.mutObj ++ f.boundMut
+  | .un _ f => f.boundMut
+  | .compose2 _ g1 g2 => g1.boundMut ++ g2.boundMut
+
+end Sigc.Adapt
+
+/-! ## Part 5 — driver -/
+namespace Sigc.Adapt
+
+def parseTy : String → Option Ty
+  | "i" => some .int
+  | "l" => some .long
+  | "d" => some .dbl
+  | _ => none
+
+def parseRet : String → Option (Option Ty)
+  | "v" => some none
+  | t => (parseTy t).map some
+
+def parseVal (s : String) : Option Val :=
+  match s.splitOn ":" with
+  | [t, n] => do
+    let ty ← parseTy t
+    let k ← n.toInt?
+    pure (.num ty k)
+  | _ => none
+
+def parseLoc (s : String) : Option (Option Nat) :=
+  if s = "-1" then some none else s.toNat?.map some
+
+/-- read `n` items with `f` -/
+def takeN (f : String → Option α) : Nat → List String → Option (List α × List String)
+  | 0, ts => some ([], ts)
+  | n + 1, t :: ts => do
+    let a ← f t
+    let (as, rest) ← takeN f n ts
+    pure (a :: as, rest)
+  | _ + 1, [] => none
+
+/-- `<count> item*` -/
+def takeList (f : String → Option α) : List String → Option (List α × List String)
+  | c :: ts => do
+    let n ← c.toNat?
+    takeN f n ts
+  | [] => none
+
+def parseFExpr : Nat → List String → Option (FExpr × List String)
+  | 0, _ => none
+  | fuel + 1, toks =>
+    match toks with
+    | "L" :: id :: thr :: ret :: ts => do
+      let id ← id.toNat?
+      let ret ← parseRet ret
+      let (ps, rest) ← takeList parseTy ts
+      pure (.leaf id ps ret (thr == "1"), rest)
+    | "V" :: id :: thr :: ret :: ts => do
+      let id ← id.toNat?
+      let ret ← parseRet ret
+      pure (.vleaf id ret (thr == "1"), ts)
+    | "B" :: loc :: ts => do
+      let loc ← parseLoc loc
+      let (bs, rest) ← takeList parseVal ts
+      let (f, rest) ← parseFExpr fuel rest
+      pure (.un (.bind loc bs) f, rest)
+    | "H" :: loc :: ts => do
+      let loc ← parseLoc loc
+      let (f, rest) ← parseFExpr fuel ts
+      pure (.un (.hide loc) f, rest)
+    | "RT" :: ts => do
+      let (tys, rest) ← takeList parseTy ts
+      let (f, rest) ← parseFExpr fuel rest
+      pure (.un (.retype tys) f, rest)
+    | "RR" :: t :: ts => do
+      let t ← parseTy t
+      let (f, rest) ← parseFExpr fuel ts
+      pure (.un (.retypeReturn t) f, rest)
+    | "HR" :: ts => do
+      let (f, rest) ← parseFExpr fuel ts
+      pure (.un .hideReturn f, rest)
+    | "BR" :: v :: ts => do
+      let v ← parseVal v
+      let (f, rest) ← parseFExpr fuel ts
+      pure (.un (.bindReturn v) f, rest)
+    | "TO" :: n :: ts => do
+      let n ← n.toNat?
+      let (f, rest) ← parseFExpr fuel ts
+      pure (.un (.trackObj n) f, rest)
+    | "SL" :: ret :: ts => do
+      let ret ← parseRet ret
+      let (sig, rest) ← takeList parseTy ts
+      let (f, rest) ← parseFExpr fuel rest
+      pure (.un (.slot ret sig) f, rest)
+    | "C1" :: ts => do
+      let (s, rest) ← parseFExpr fuel ts
+      let (g, rest) ← parseFExpr fuel rest
+      pure (.compose1 s g, rest)
+    | "C2" :: ts => do
+      let (s, rest) ← parseFExpr fuel ts
+      let (g1, rest) ← parseFExpr fuel rest
+      let (g2, rest) ← parseFExpr fuel rest
+      pure (.compose2 s g1 g2, rest)
+    | "EC" :: ts => do
+      let (f, rest) ← parseFExpr fuel ts
+      let (c, rest) ← parseFExpr fuel rest
+      pure (.exceptionCatch f c, rest)
+    | _ => none
+
+def showTy : Ty → String
+  | .int => "i"
+  | .long => "l"
+  | .dbl => "d"
+
+def showVal : Val → String
+  | .unit => "unit"
+  | .num t n => showTy t ++ ":" ++ toString n
+
+def showCall (c : Call) : String :=
+  toString c.id ++ "(" ++ ",".intercalate (c.args.map showVal) ++ ")"
+
+def showOutcome (o : Outcome) : String :=
+  "log=" ++ ";".intercalate (o.log.map showCall) ++ " res=" ++
+    (match o.res with
+     | .ok v => showVal v
+     | .threw => "threw")
+
+/-- `c10 <route D|S|G> <ret> <nsig> <ty>* <nargs> <val>* <expr>` -/
+def processC10 (toks : List String) : Option String :=
+  match toks with
+  | route :: ret :: ts => do
+    let ret ← parseRet ret
+    let (sig, rest) ← takeList parseTy ts
+    let (args, rest) ← takeList parseVal rest
+    let (e, rest) ← parseFExpr (rest.length + 1) rest
+    if !rest.isEmpty then none
+    else
+      let wt := wellTyped e args.length && (route == "D" || sig.length == args.length)
+      let s : SlotM := ⟨false, false, ret, e⟩
+      let o ← (match route with
+        | "D" => some (direct e args)
+        | "S" => some (s.call (List.zipWith conv sig args))
+        | "G" => some (viaSignal ret [s] (List.zipWith conv sig args))
+        | _ => none)
+      let sp := callSpec e args
+      pure ("wt=" ++ (if wt then "1" else "0") ++ " " ++ showOutcome o
+            ++ " spec=" ++ (if (direct e args) == sp then "same" else "differs"))
+  | _ => none
+
+def parsePK : String → Option PK
+  | "v" => some .val
+  | "l" => some .lref
+  | "c" => some .cref
+  | "r" => some .rref
+  | _ => none
+
+def parseBound (s : String) : Option Bound :=
+  match s.splitOn ":" with
+  | ["v", n] => n.toNat?.map .byVal
+  | ["r", n] => n.toNat?.map .byRef
+  | ["c", n] => n.toNat?.map .byCRef
+  | _ => none
+
+def parseObj (s : String) : Option (Nat × Int) :=
+  match s.splitOn ":" with
+  | [a, b] => do
+    let a ← a.toNat?
+    let b ← b.toInt?
+    pure (a, b)
+  | _ => none
+
+def parseOExpr : Nat → List String → Option (OExpr × List String)
+  | 0, _ => none
+  | fuel + 1, toks =>
+    match toks with
+    | "L" :: id :: ptr :: retv :: ts => do
+      let id ← id.toNat?
+      let (ps, rest) ← takeList parsePK ts
+      pure (.leaf id (ptr == "1") ps (retv == "1"), rest)
+    | "B" :: loc :: ts => do
+      let loc ← parseLoc loc
+      let (bs, rest) ← takeList parseBound ts
+      let (f, rest) ← parseOExpr fuel rest
+      pure (.un (.bind loc bs) f, rest)
+    | "H" :: loc :: ts => do
+      let loc ← parseLoc loc
+      let (f, rest) ← parseOExpr fuel ts
+      pure (.un (.hide loc) f, rest)
+    | "RT" :: ts => do
+      let (tys, rest) ← takeList parsePK ts
+      let (f, rest) ← parseOExpr fuel rest
+      pure (.un (.retype tys) f, rest)
+    | "RR" :: ts => do
+      let (f, rest) ← parseOExpr fuel ts
+      pure (.un .retypeReturn f, rest)
+    | "HR" :: ts => do
+      let (f, rest) ← parseOExpr fuel ts
+      pure (.un .hideReturn f, rest)
+    | "BR" :: v :: ts => do
+      let v ← v.toInt?
+      let (f, rest) ← parseOExpr fuel ts
+      pure (.un (.bindReturn v) f, rest)
+    | "EC" :: ts => do
+      let (f, rest) ← parseOExpr fuel ts
+      pure (.un .exceptionCatch f, rest)
+    | "TO" :: ts => do
+      let (f, rest) ← parseOExpr fuel ts
+      pure (.un .trackObj f, rest)
+    | "C1" :: sid :: ts => do
+      let sid ← sid.toNat?
+      let (f, rest) ← parseOExpr fuel ts
+      pure (.un (.compose1 sid) f, rest)
+    | "SL" :: ts => do
+      let (sig, rest) ← takeList parsePK ts
+      let (f, rest) ← parseOExpr fuel rest
+      pure (.un (.slot sig) f, rest)
+    | "C2" :: sid :: ts => do
+      let sid ← sid.toNat?
+      let (g1, rest) ← parseOExpr fuel ts
+      let (g2, rest) ← parseOExpr fuel rest
+      pure (.compose2 sid g1 g2, rest)
+    | _ => none
+
+def parseSlots : Nat → Nat → List String → Option (List OSlot × List String)
+  | _, 0, ts => some ([], ts)
+  | fuel, n + 1, ts => do
+    let (e, rest) ← parseOExpr fuel ts
+    let (more, rest) ← parseSlots fuel n rest
+    pure (⟨false, false, e⟩ :: more, rest)
+
+def objLabel (o : Nat) : String :=
+  if o < 100 then "e" ++ toString o
+  else if o < 200 then "b" ++ toString (o - 100)
+  else "x"
+
+def showParam (p : Param) : String := objLabel p.src ++ ":" ++ toString p.seen
+
+def showRec (r : Rec) : String :=
+  toString r.id ++ "(" ++ ",".intercalate (r.params.map showParam) ++ ")"
+
+def showObj (h : Heap) (o : Nat) : String :=
+  objLabel o ++ ":" ++ toString (h.val o) ++ ":c" ++ toString (h.copies o) ++ ":m" ++ toString (h.moves o)
+
+def initHeap (objs : List (Nat × Int)) : Heap :=
+  { next := 1000,
+    val := fun x => match objs.find? (fun p => p.1 == x) with
+      | some p => p.2
+      | none => 0,
+    copies := fun _ => 0, moves := fun _ => 0, hops := fun _ => 0, log := [] }
+
+/-- `c11 <V|I> <nsig> <pk>* <nsig> <int>* <nobj> <id:val>* <nslots> <oexpr>*` -/
+def processC11 (toks : List String) : Option String :=
+  match toks with
+  | kind :: ts => do
+    let (sig, rest) ← takeList parsePK ts
+    let (vals, rest) ← takeList String.toInt? rest
+    let (extra, rest) ← takeList parseObj rest
+    match rest with
+    | ns :: rest => do
+      let ns ← ns.toNat?
+      let (slots, rest) ← parseSlots (rest.length + 1) ns rest
+      if !rest.isEmpty || vals.length != sig.length then none
+      else
+        let ids := List.range sig.length
+        let h0 := initHeap (List.zip ids vals ++ extra)
+        let tracked := ids ++ (extra.map (·.1)).filter (fun o => 100 ≤ o && o < 200)
+        let (h, res) ← (match kind with
+          | "V" =>
+            let (h, r) := emitVoidO paramKind sig ids slots h0
+            some (h, match r with
+              | .ok _ => "void"
+              | .threw => "threw")
+          | "I" =>
+            let (h, r) := emitValueO paramKind sig ids slots h0
+            some (h, match r with
+              | .ok (some v) => toString v
+              | .ok none => "none"
+              | .threw => "threw")
+          | _ => none)
+        pure ("calls=" ++ ";".intercalate (h.log.map showRec) ++ " objs="
+              ++ ",".intercalate (tracked.map (showObj h)) ++ " res=" ++ res)
+    | [] => none
+  | [] => none
+
+/-- one driver case per input line → one output line; the first word selects the check -/
+def processLine (line : String) : String :=
+  match words line with
+  | "c10" :: ts => (processC10 ts).getD "parse-error"
+  | "c11" :: ts => (processC11 ts).getD "parse-error"
+  | _ => "parse-error"
 
 end Sigc.Adapt
